@@ -45,6 +45,17 @@ Definition out_ok (before : istate) (o : option iout) : bool :=
 (* is this record the Abort button being pressed, in this control mode? (button 1, value 1) *)
 Definition is_abort_press (c : c18_case) : bool := (i_ty c =? 1) && (i_num c =? 1) && (i_value c =? 1).
 
+(* "motion limiting is on": switched off while the override button of the control mode is held, on again when it
+   is released, untouched by every other record - whether or not the motion lock is engaged at that moment *)
+Definition limit_after (c : c18_case) : bool :=
+  match decode_event (i_ty c) (i_num c) (i_value c) with
+  | Some e => match snd (gp_map (i_mode c) (d_pad (i_state c)) e) with
+              | Some (KLimitMotion Pressed) => false
+              | Some (KLimitMotion Released) => true
+              | _ => limit_motion (d_in (i_state c)) end
+  | None => limit_motion (d_in (i_state c))
+  end.
+
 Definition c18_spec_ok (c : c18_case) (r : option (dstate * option iout)) : bool :=
   match r with
   | None => false                     (* a record of the four joystick types never crashes the daemon *)
@@ -55,6 +66,7 @@ Definition c18_spec_ok (c : c18_case) (r : option (dstate * option iout)) : bool
       (* "engaged as at start-up": the state replay the kernel sends when the device is opened
          (records with the init flag, 0x80) never disengages the lock *)
       && implb ((128 <=? i_ty c) && motion_lock (d_in (i_state c))) (motion_lock (d_in d'))
+      && Bool.eqb (limit_motion (d_in d')) (limit_after c)
   end.
 
 Definition c18_model (c : c18_case) : option (dstate * option iout) :=
